@@ -14,8 +14,10 @@ add("C17","C17_chain_transparent","any chain of recording and logging middleware
  "∀ (names : List String) (id : Nat) (r : Req), (bundle (names.map mwOf) (handlerOf id) r).2 = (handlerOf id r).2 ∧\n    (bundle (names.map mwOf) (handlerOf id) r).1 =\n      (names.filter (fun n => n != \"LOGREQ\" && n != \"LOGRESP\")).map (\"enter \" ++ ·) ++ (handlerOf id r).1 ++\n      ((names.filter (fun n => n != \"LOGREQ\" && n != \"LOGRESP\")).reverse).map (\"leave \" ++ ·)")
 add("C17","C17_routes_served","each registered route is served by exactly its handler (routes with pairwise different (method, path)).",
  "∀ (routes : List Route) (r : Route), r ∈ routes →\n    (routes.map (fun x => (x.method, x.path))).Nodup → dispatch routes r.method r.path = .handler r.handler")
-add("C17","C17_others_rejected","every other method/path combination is rejected by the router: 405 when the path is registered for other methods only, 404 otherwise.",
- "∀ (routes : List Route) (m p : String), (∀ r ∈ routes, ¬ (r.method = m ∧ r.path = p)) →\n    dispatch routes m p = (if routes.any (fun r => r.path == p) then .methodNotAllowed else .notFound)")
+add("C17","C17_others_rejected","every other method/path combination is rejected by the router: 405 when only patterns of other methods match the path (exactly, or as a subtree pattern ending in \"/\"), 404 otherwise.",
+ "∀ (routes : List Route) (m p : String), (∀ r ∈ routes, ¬ (r.method = m ∧ patMatches r.path p = true)) →\n    dispatch routes m p = (if routes.any (fun r => patMatches r.path p) then .methodNotAllowed else .notFound)")
+add("C17","C17_subtree_served","a route registered with a trailing slash serves the whole subtree below it: a path that is not itself registered for the method is answered by the handler of the longest registered subtree pattern of that method that contains it.",
+ "∀ (routes : List Route) (m p : String), (∀ r ∈ routes, ¬ (r.method = m ∧ r.path = p)) →\n    ∀ q, longest (routes.filter (fun r => r.method == m && r.path.endsWith \"/\" && p.startsWith r.path)) = some q →\n    dispatch routes m p = .handler q.handler ∧ q ∈ routes ∧ q.method = m ∧ p.startsWith q.path = true ∧\n    ∀ r ∈ routes, r.method = m → r.path.endsWith \"/\" = true → p.startsWith r.path = true → r.path.length ≤ q.path.length")
 add("C17","C17_each_listener_has_its_router","each configured listener installs the router built from its own routes (HTTP and HTTPS alike), and answers through it.",
  "∀ (cfg : Config) (l : Listener) (m p : String), serve cfg l m p = (match l with | .http => cfg.httpRoutes | .https => cfg.httpsRoutes).map (fun rs => dispatch rs m p)")
 add("C18","C18_wg_balanced","the caller's WaitGroup counter equals the number of providers that have been started and whose serve call has not returned; it is never negative.",
